@@ -82,6 +82,7 @@ def run(cx):
     cx.tables['array mutators'] = sorted(mut.ARRAY_MUTATORS)
     cx.tables['in-place library calls'] = sorted(mut.INPLACE_NP_FUNCS)
     cx.tables['aliasing library calls'] = sorted(mut.ALIAS_FUNCS)
+    cx.tables['overwrite keywords'] = list(mut.OVERWRITE_KWARGS)
     cx.tables['view methods'] = sorted(mut.VIEW_METHODS)
     # mutable default arguments must never be returned
     for q in sorted(prog.funcs):
